@@ -257,7 +257,9 @@ qb_log_real_va_(struct qb_log_callsite *cs, va_list ap)
 		t = &conf[pos];
 		if ((t->state == QB_LOG_STATE_ENABLED)
 		    && qb_bit_is_set(cs->targets, pos)) {
-			if (t->threaded) {
+			/* only a target with a logger for formatted lines
+			 * can be served by the logging thread */
+			if (t->threaded && t->logger) {
 				if (!found_threaded) {
 					found_threaded = QB_TRUE;
 					if (formatted == QB_FALSE) {
@@ -312,6 +314,7 @@ qb_log_thread_log_write(struct qb_log_callsite *cs,
 	for (pos = QB_LOG_TARGET_START; pos <= conf_active_max; pos++) {
 		t = &conf[pos];
 		if ((t->state == QB_LOG_STATE_ENABLED) && t->threaded
+		    && t->logger
 		    && qb_bit_is_set(cs->targets, t->pos)) {
 			qb_do_extended(buffer, t->extended,
 				t->logger(t->pos, cs, timestamp, buffer));
